@@ -1,11 +1,11 @@
 SPECIFICATION Spec
 CONSTANTS
   Machine = "log"
-  CrashPoints = TRUE
+  CrashPoints = FALSE
   RollFaults = FALSE
   RollKills = FALSE
-  LogListFaults = FALSE
-  ListingDesign = "skip"
+  LogListFaults = TRUE
+  ListingDesign = "fail"
   RoomFaults = FALSE
   RollDesign = "rename"
   MaxCount = 3
@@ -26,6 +26,5 @@ CONSTANTS
   PreDumps = 5
   MaxIds = 12
 CONSTRAINT Bounded
-INVARIANTS TypeOK LogCountBoundCrash LogSizeBound LogSizeStrict
-PROPERTIES LogCrashRecovers
+INVARIANTS LogCountBound
 CHECK_DEADLOCK FALSE
